@@ -371,6 +371,13 @@ var ConflictCorpus = []*SynGrammar{
 			P("S", NT("A"), Lit("b")), P("S", NT("B"), Lit("b")), P("S", NT("C")),
 			P("A", Lit("a")), P("B", Lit("a")), P("C", Lit("a"), Lit("b"), Lit("c")),
 		}},
+	{Name: "G26", Why: "one state expands B from two items whose look-ahead sets overlap ({a} and {a,c}); the only conflict is on the look-ahead that only the second set has",
+		Lex: stdLex, Flags: []string{"-a"},
+		Prods: []Prod{
+			P("S", NT("B"), Lit("a"), Lit("x")), P("S", NT("B"), NT("T"), Lit("y")),
+			P("T", Lit("a")), P("T", Lit("c")),
+			P("B", Lit("z")), P("B", Lit("z"), Lit("c"), Lit("w")),
+		}},
 }
 
 // HostileCorpus: terminal spellings that stress the name<->number tables (C10).
